@@ -254,7 +254,7 @@ for sh_ in SHARDS:
     else:
         _split.append(sh_)
 SHARDS = _split
-QUICK = [i for i, s in enumerate(SHARDS) if (s["eng"] in ("univ",) and s["tn"] == 0) or (s["eng"] in ("seq", "cook") and s["tmpl"] == "T05") or (s["eng"] == "init" and s["tmpl"] == "T03") or (s["eng"] in ("plain_seq", "ov") and s["tmpl"] in ("T03", "T02")) or (s["eng"] == "cdt" and s["tmpl"] == "T11" and s.get("which") == 3) or (s["tmpl"] in ("T08", "T14") and s.get("which") == 2 and s.get("nlen", 1) == 1)
+QUICK = [i for i, s in enumerate(SHARDS) if (s["eng"] in ("univ",) and s["tn"] == 0) or (s["eng"] in ("seq", "cook") and s["tmpl"] == "T05") or (s["eng"] == "init" and s["tmpl"] == "T03") or (s["eng"] == "univ_nn" and s["tmpl"] in ("T05", "T12")) or (s["eng"] in ("plain_seq", "ov") and s["tmpl"] in ("T03", "T02")) or (s["eng"] == "cdt" and s["tmpl"] == "T11" and s.get("which") == 3) or (s["tmpl"] in ("T08", "T14") and s.get("which") == 2 and s.get("nlen", 1) == 1)
          or (s["tmpl"] in ("T03", "T10", "T12") and s["eng"] == "plain" and s["tn"] == 0) or (s["tmpl"] in ("T03", "T05") and s["eng"] == "plain" and s["tn"] == 1)]
 
 
